@@ -1,3 +1,53 @@
 //! Safe-Rust verification hooks for this module (accessors/wrappers only; no logic).
 #![allow(missing_docs, unused_imports, dead_code)]
 use super::*;
+
+// ---- statime_h (C42/C43): name the types, raw entry access, layout getters
+// (type aliases, not re-exports: a re-export would make the items 'exported' and trip the crate's missing_docs lint)
+pub type EstimatorStateT<S> = super::EstimatorState<S>;
+pub type UncertainValueT = super::UncertainValue;
+
+pub fn est_rows<S: KalmanStorageBase>(e: &EstimatorState<S>) -> usize {
+    e.state.rows()
+}
+pub fn est_cov_dims<S: KalmanStorageBase>(e: &EstimatorState<S>) -> (usize, usize) {
+    (e.uncertainty.rows(), e.uncertainty.cols())
+}
+pub fn est_state_dims<S: KalmanStorageBase>(e: &EstimatorState<S>) -> (usize, usize) {
+    (e.state.rows(), e.state.cols())
+}
+pub fn est_state_get<S: KalmanStorageBase>(e: &EstimatorState<S>, r: usize) -> f64 {
+    e.state[(r, 0)]
+}
+pub fn est_state_set<S: KalmanStorageBase>(e: &mut EstimatorState<S>, r: usize, v: f64) {
+    e.state[(r, 0)] = v;
+}
+pub fn est_cov_get<S: KalmanStorageBase>(e: &EstimatorState<S>, r: usize, c: usize) -> f64 {
+    e.uncertainty[(r, c)]
+}
+pub fn est_cov_set<S: KalmanStorageBase>(e: &mut EstimatorState<S>, r: usize, c: usize, v: f64) {
+    e.uncertainty[(r, c)] = v;
+}
+pub fn est_time<S: KalmanStorageBase>(e: &EstimatorState<S>) -> Timestamp<TAI> {
+    e.time
+}
+/// Row of the offset entry of clock `id` (the frequency entry is the next row), as the queries index it.
+pub fn est_clock_row<S: KalmanStorageBase>(e: &EstimatorState<S>, id: ClockId) -> Option<usize> {
+    e.get_clock_info(id).ok().map(|i| i.offset_index())
+}
+pub fn est_clock_freq_row<S: KalmanStorageBase>(e: &EstimatorState<S>, id: ClockId) -> Option<usize> {
+    e.get_clock_info(id).ok().map(|i| i.frequency_index())
+}
+pub fn est_clock_wander<S: KalmanStorageBase>(e: &EstimatorState<S>, id: ClockId) -> Option<f64> {
+    e.get_clock_info(id).ok().map(|i| i.wander)
+}
+/// Row of the delay entry of link `id`.
+pub fn est_link_row<S: KalmanStorageBase>(e: &EstimatorState<S>, id: LinkId) -> Option<usize> {
+    e.get_link_info(id).ok().map(|i| i.index)
+}
+pub fn est_link_decay<S: KalmanStorageBase>(e: &EstimatorState<S>, id: LinkId) -> Option<f64> {
+    e.get_link_info(id).ok().map(|i| i.decay_rate)
+}
+pub fn est_counts<S: KalmanStorageBase>(e: &EstimatorState<S>) -> (usize, usize, usize) {
+    (e.clock_info.0.len(), e.external_clocks.0.len(), e.link_info.0.len())
+}
